@@ -208,6 +208,10 @@ func (b *bigmachineExecutor) invocationReader(invIndex uint64) (io.ReadCloser, e
 func (b *bigmachineExecutor) addInvocation(inv execInvocation) (bool, error) {
 	b.mu.Lock()
 	defer b.mu.Unlock()
+	return b.addInvocationLocked(inv)
+}
+
+func (b *bigmachineExecutor) addInvocationLocked(inv execInvocation) (bool, error) {
 	if _, ok := b.invocations[inv.Index]; ok {
 		return false, nil
 	}
@@ -223,7 +227,17 @@ func (b *bigmachineExecutor) addInvocation(inv execInvocation) (bool, error) {
 			continue
 		}
 		if _, ok := b.invocations[result.invIndex]; !ok {
-			panic(fmt.Sprintf("result from unknown invocation %d", result.invIndex))
+			// None of the invocation's own tasks has been run by this
+			// executor: all of the result's tasks belong to other
+			// invocations (e.g. the Func returned one of its Result
+			// arguments unchanged). Workers nevertheless need the
+			// invocation to resolve references to it.
+			if result.inv.Index != result.invIndex {
+				panic(fmt.Sprintf("result from unknown invocation %d", result.invIndex))
+			}
+			if _, err := b.addInvocationLocked(result.inv); err != nil {
+				return false, err
+			}
 		}
 		inv.Args[i] = invocationRef{result.invIndex}
 		if b.invocationDeps[inv.Index] == nil {
